@@ -27,8 +27,9 @@ func c01(c *core.Check) {
 	groupGuardRule(c, r8)
 	r9 := c.Rule("R9", "the running quote depth, which indexes the quotes list, never becomes negative: every store into quoteDepth[0] is clamped at 0, adds a positive constant, or subtracts under a test that the depth is large enough", 2)
 	counterCellRule(c, r9)
-	r10 := c.Rule("R10", "sizes taken from the document are bounded before they size an allocation: colspan and rowspan are read within the limits of the HTML specification (the table grid and the collapsed-border grid are allocated with them)", 4)
+	r10 := c.Rule("R10", "sizes taken from the document are bounded before they size an allocation: colspan and rowspan are read within the limits of the HTML specification (the table grid and the collapsed-border grid are allocated with them), and the pad length of a counter style is clamped before strings.Repeat", 5)
 	spanBounds(c, r10)
+	padBoundRule(c, r10)
 
 	p := c.Prog
 	r4 := c.Rule("R4", "no nil dereference the code itself anticipates: every method call through ComputedStyle.parentStyle (nil on the root element) is dominated by a nil / root test; no comma-ok type assertion to a pointer or interface discards its ok result and then dereferences the value without a nil test (module-wide)", 6)
